@@ -1348,7 +1348,7 @@ func c01XShapes() []c01Shape {
 	return s
 }
 
-var c01QuickDCfgs = []int{0, 1, 16, 32, 36, 511}
+var c01QuickDCfgs = []int{0, 1, 16, 36}
 
 func c01DCfgs() []int {
 	if !verifThorough() {
